@@ -1,6 +1,6 @@
 #!/bin/bash
 # tools/collect_seeds.sh <Cxx>  — copies /tmp/seedwork-Cxx/out/* to seeded/Cxx-i, tries each, removes the worktree
-HERE="$(cd "$(dirname "${BASH_SOURCE[0]}")/.." && pwd)"; P="$1"; shift
-for d in /tmp/seedwork-$P/out/*/; do i=$(basename "$d"); mkdir -p "$HERE/seeded/$P-$i"; cp "$d"/{patch.diff,demo.py,meta.json} "$HERE/seeded/$P-$i/" 2>/dev/null; done
-for d in "$HERE"/seeded/$P-*/; do "$HERE/tools/try_seed.sh" "$P" "$d" "$@"; done
+HERE="$(cd "$(dirname "${BASH_SOURCE[0]}")/.." && pwd)"; P="$1"; shift; OFF="${SEED_OFFSET:-0}"
+NEW=""; for d in /tmp/seedwork-$P/out/*/; do i=$(( $(basename "$d") + OFF )); mkdir -p "$HERE/seeded/$P-$i"; cp "$d"/{patch.diff,demo.py,meta.json} "$HERE/seeded/$P-$i/" 2>/dev/null; NEW="$NEW $HERE/seeded/$P-$i"; done
+for d in $NEW; do "$HERE/tools/try_seed.sh" "$P" "$d" "$@"; done
 git -C /repo worktree remove --force /tmp/seed/$P 2>/dev/null; rm -rf /tmp/seedwork-$P
